@@ -238,7 +238,7 @@ fn run_text_on<D: Subject>(src: &str, host: &Host, input: &V) -> Option<String> 
     let r = (|| -> Result<(), Fail> {
         let (_, bd) = compile(src, &mut d)?;
         start(&mut d, *bd.jump_index(), input)?;
-        run_to_end(&mut d, 2_000)?;
+        run_to_end(&mut d, STEP_CAP.with(|c| c.get()))?;
         Ok(())
     })();
     match r {
@@ -254,6 +254,9 @@ fn text_kind(src: &str, which: usize, hi: usize) -> Option<String> {
 }
 
 thread_local! {
+    /// step cap of the current element: 2 000 for generated programs (they terminate), 300 for token-corpus inputs,
+    /// among which are loops that never end and grow their value on every pass
+    static STEP_CAP: std::cell::Cell<usize> = std::cell::Cell::new(2_000);
     static SEEN: std::cell::RefCell<std::collections::HashSet<String>> = std::cell::RefCell::new(std::collections::HashSet::new());
 }
 
@@ -380,7 +383,9 @@ impl Property for C07 {
                 let mut d = SData::fresh(Host::none());
                 match compile(&src, &mut d) {
                     Ok((pr, _)) if !pr.get_nodes().is_empty() => {
+                        STEP_CAP.with(|c| c.set(300));
                         check_text(cx, &src);
+                        STEP_CAP.with(|c| c.set(2_000));
                         cx.nontrivial(&src);
                         cx.count("token_inputs_run", 1);
                     }
@@ -423,7 +428,7 @@ impl Property for C07 {
     fn meta(&self, tier: Tier) -> Meta {
         let l = layout(tier);
         Meta {
-            rule: format!("(a) the {} programs of the C01 corpora and every accepted input of the C03/C04 token corpora (K1, K2, K4, K5; lengths up to 5 in the quick tier, all in the thorough tier); (b) {} boundary programs: every prefix/suffix operator on, and every binary operator (ranges, casts, concatenation, partial apply, conditionals included) between, 29 boundary literals (i32 limits, 31/32/33/64, huge float, empty and multi-byte text, empty bytes, symbol, symbol and identifier with a multi-byte name, unit, list, keyed list, range, concatenation, lists and concatenations holding text, bytes, symbols and lists), casts to the type of each literal, and index / apply / slice / slice-of-slice families over 6 container kinds x 10 boundary indexes (incl. +-1e300); each run to completion (step cap 2 000) on both implementations under hosts {{none, declining, accepting}} (corpus programs: none and accepting in the quick tier, T4 loops without a host) with a mixed keyed/unkeyed list as input; (c) {} deep-data cases: pairs (left/right nested), lists and concatenations nested 10/100/1 000/10 000 deep built through the data API, then Equal (self, copy), LessThan, casts to CharList/ByteList/Symbol, `.|`, clone_data as single instructions. Verdict: no panic unwinds, no abort, no hang (supervised). Non-trivial: every case; distinct by text / parameters.", l.programs, l.boundary, l.deep),
+            rule: format!("(a) the {} programs of the C01 corpora and every accepted input of the C03/C04 token corpora (K1, K2, K4, K5; lengths up to 5 in the quick tier, all in the thorough tier); (b) {} boundary programs: every prefix/suffix operator on, and every binary operator (ranges, casts, concatenation, partial apply, conditionals included) between, 29 boundary literals (i32 limits, 31/32/33/64, huge float, empty and multi-byte text, empty bytes, symbol, symbol and identifier with a multi-byte name, unit, list, keyed list, range, concatenation, lists and concatenations holding text, bytes, symbols and lists), casts to the type of each literal, and index / apply / slice / slice-of-slice families over 6 container kinds x 10 boundary indexes (incl. +-1e300); each run to completion (step cap 2 000; 300 for token-corpus inputs, which include loops that never end) on both implementations under hosts {{none, declining, accepting}} (corpus programs: none and accepting in the quick tier, T4 loops without a host) with a mixed keyed/unkeyed list as input; (c) {} deep-data cases: pairs (left/right nested), lists and concatenations nested 10/100/1 000/10 000 deep built through the data API, then Equal (self, copy), LessThan, casts to CharList/ByteList/Symbol, `.|`, clone_data as single instructions. Verdict: no panic unwinds, no abort, no hang (supervised). Non-trivial: every case; distinct by text / parameters.", l.programs, l.boundary, l.deep),
             assumptions: vec![
                 "an Err returned by a step is acceptable; only unwinding, aborting and exceeding the wall budget are violations".into(),
                 "a worker that aborts (stack overflow) or hangs is attributed to the in-flight element by the supervisor and confirmed in a fresh process".into(),
